@@ -25,6 +25,7 @@ class SuiteSparseSolver:
         self.factorize = True
         self.new_A = False  # does not need to handle new A in suitesparse solvers
         self.use_linsolve = False
+        self._F_pattern = None  # sparsity pattern for which `F` was computed
 
     def clear(self):
         """
@@ -36,6 +37,15 @@ class SuiteSparseSolver:
         self.N = None   # numeric factorization
         self.factorize = True
         self.use_linsolve = False
+        self._F_pattern = None
+
+    @staticmethod
+    def _pattern(A):
+        """
+        Return a hashable description of the sparsity pattern of ``A``.
+        """
+        colptr, rowind, _ = A.CCS
+        return A.size, bytes(colptr), bytes(rowind)
 
     def _symbolic(self, A):
         """
@@ -117,8 +127,15 @@ class SuiteSparseSolver:
         self.A = A
         self.b = b
 
+        # the cached symbolic factorization is only valid for the sparsity pattern it was computed for;
+        # using it with another pattern is undefined behavior in the C library (KLU may crash)
+        pattern = self._pattern(A)
+        if pattern != self._F_pattern:
+            self.factorize = True
+
         if self.factorize is True:
             self.F = self._symbolic(self.A)
+            self._F_pattern = pattern
             self.factorize = False
 
         try:
@@ -129,6 +146,7 @@ class SuiteSparseSolver:
         except ValueError:
             logger.debug('Unexpected symbolic factorization.')
             self.F = self._symbolic(self.A)
+            self._F_pattern = pattern
             self.solve(self.A, self.b)
 
             return np.ravel(self.b)
